@@ -134,6 +134,16 @@ CLAIMED = {
              "with a transition list; a user-written connector offering two compatible positive-weight descriptors (each gets trans_prob 1).",
         technique="Lean 4 proofs about the graph construction + edge-by-edge differential check + per-node oracle",
         ref="7/C16"),
+    "C06": dict(
+        text="Lean 4, for every molecule description and every oracle: C06_open_accounting (2*|bonds| + |open| = number of descriptors of all residues) and "
+             "C06_every_descriptor_once (a returned molecule without open descriptor has used every descriptor of every residue in exactly one bond: the consumed "
+             "origins are a permutation of all origins), on top of C04/C05's invariants (tree, endpoints). The closability analysis wellPosed is an executable Lean "
+             "definition evaluated by the driver for every input; the check requires every run (recorded streams, and all choice sequences for bounded instances) "
+             "of every molecule it accepts to complete without error, leave nothing open and respect the written element order (oracle on the RDKit molecule).",
+        note="C06_partial: 'wellPosed implies completion for every oracle, within an explicit bound' is not proved; it is tested by the check. wellPosed is "
+             "deliberately conservative (it may reject closable molecules, never the converse as far as tested).",
+        technique="Lean 4 counting/bijection proof over the generation model + executable closability analysis checked against the implementation",
+        ref="7/C06"),
 }
 
 NOT_YET = {}
